@@ -82,7 +82,7 @@ Print Assumptions C15_nothing_lost_unless_shutdown_gave_up.
 (* The condition is needed: after ShutdownWithContext returned ctx.Err() the stop flag is reset, and a connection that closeIdleConns closed with a
    request in hand serves it on the closed connection ("When ShutdownWithContext returns errors, any operation to the Server is unavailable"). *)
 Example C15_ex_after_error_return_a_response_can_be_lost :
-  match run (mkCfg false false) init gave_up_trace with
+  match run (mkCfg false false false) init gave_up_trace with
   | Some s => sd s = SReturnedErr /\ map lost (conns s) = [1; 0]
   | None => False
   end.
@@ -105,9 +105,9 @@ Proof. exact closed_idle_conn_exits. Qed.
 Print Assumptions C15_idle_closed_not_waited_partial.
 
 Example C15_ex_graceful :
-  match run (mkCfg false false) init graceful_trace with
+  match run (mkCfg false false false) init graceful_trace with
   | Some s1 =>
-      match run (mkCfg false false) s1 graceful_shutdown with
+      match run (mkCfg false false false) s1 graceful_shutdown with
       | Some s => sd s = SReturnedNil /\ map started (conns s) = [1; 1; 1] /\ map delivered (conns s) = [1; 1; 1]
                   /\ map srvClosed (conns s) = [true; true; false] /\ n_lost s = 0 /\ closedch (dn s) = [O] /\ done (dn s) = None
       | None => False
@@ -117,25 +117,25 @@ Example C15_ex_graceful :
 Proof. exact graceful_example. Qed.
 
 Example C15_ex_unflushed_is_flushed_now :
-  match run (mkCfg false false) init unflushed_trace with
+  match run (mkCfg false false false) init unflushed_trace with
   | Some s => sd s = SReturnedNil /\ map started (conns s) = [1] /\ map delivered (conns s) = [1] /\ n_lost s = 0
   | None => False
   end.
 Proof. exact unflushed_is_flushed_now. Qed.
 
 Example C15_ex_request_in_hand_is_not_served_now :
-  match run (mkCfg false false) init closeidle_trace with
+  match run (mkCfg false false false) init closeidle_trace with
   | Some s => sd s = SReturnedNil /\ map started (conns s) = [1] /\ map delivered (conns s) = [1] /\ n_lost s = 0
   | None => False
   end.
 Proof. exact closeidle_request_in_hand_is_not_served_now. Qed.
 
 Example C15_ex_pipelined_conn_is_not_closed_as_idle_now :
-  (match run (mkCfg false false) init closeidle_unflushed_trace with
+  (match run (mkCfg false false false) init closeidle_unflushed_trace with
    | Some s => sd s = SReturnedNil /\ map started (conns s) = [2] /\ map delivered (conns s) = [2] /\ n_lost s = 0 /\ map srvClosed (conns s) = [false]
    | None => False
    end) /\
-  (match run (mkCfg true false) init closeidle_unflushed_trace with
+  (match run (mkCfg true false false) init closeidle_unflushed_trace with
    | Some s => sd s = SReturnedNil /\ map started (conns s) = [2] /\ map delivered (conns s) = [2] /\ n_lost s = 0
    | None => False
    end).
@@ -145,16 +145,16 @@ Proof. exact pipelined_conn_is_not_closed_as_idle_now. Qed.
 (* two cycles on one Server (the second Shutdown closes the fresh channel of the second Serve), then a timed-out call, a call after it
    (shortcut), and Serve once more *)
 Example C15_ex_reuse :
-  match run (mkCfg false false) init cycle1 with
+  match run (mkCfg false false false) init cycle1 with
   | Some s1 =>
       sd s1 = SReturnedNil /\ done (dn s1) = None /\ dflag (dn s1) = false /\ closedch (dn s1) = [O] /\
-      match run (mkCfg false false) s1 cycle2_until_done_closed with
+      match run (mkCfg false false false) s1 cycle2_until_done_closed with
       | Some s2 =>
           sd s2 = SWait /\ map cdone (conns s2) = [Some O; Some 1%nat] /\ n_handlers s2 = 1 /\
           done (dn s2) = Some 1%nat /\ chan_closed (dn s2) 1 = true /\
-          match run (mkCfg false false) s2 [LCtxExpire; LSetStop] with
+          match run (mkCfg false false false) s2 [LCtxExpire; LSetStop] with
           | Some s3 => sd s3 = SReturnedNil /\ tainted (dn s3) = true /\ n_handlers s3 = 1 /\ chan_closed (dn s3) 1 = true /\
-                       match run (mkCfg false false) s3 ([LServeStart] ++ one_request 2 2) with
+                       match run (mkCfg false false false) s3 ([LServeStart] ++ one_request 2 2) with
                        | Some s4 => map cdone (conns s4) = [Some O; Some 1%nat; Some 1%nat] /\ chan_closed (dn s4) 1 = true
                        | None => False
                        end
@@ -169,15 +169,15 @@ Proof. exact reuse_example. Qed.
 (* the idle marker of a NEW connection is connTime + 5 s and the clock is part of the model (LRegIdle, LTick): "opened, silent for 5 s, first
    request read just as closeIdleConns closes it" is one of the interleavings C15_started_handlers_answered quantifies over; here it is *)
 Example C15_ex_fresh_conn_first_request_is_not_served :
-  (match run (mkCfg false false) init (firstn 13 fresh_conn_trace) with
+  (match run (mkCfg false false false) init (firstn 13 fresh_conn_trace) with
    | Some s => map srvClosed (conns s) = [true] /\ map pc (conns s) = [CGotByte]
    | None => False
    end) /\
-  (match run (mkCfg false false) init fresh_conn_trace with
+  (match run (mkCfg false false false) init fresh_conn_trace with
    | Some s => sd s = SReturnedNil /\ map started (conns s) = [0] /\ n_lost s = 0
    | None => False
    end) /\
-  (match run (mkCfg false false) init [LServeStart; LAccept 0; LOpenInc 0; LRegIdle 0; LSetDeadline 0; LSend 0; LPeekOk 0;
+  (match run (mkCfg false false false) init [LServeStart; LAccept 0; LOpenInc 0; LRegIdle 0; LSetDeadline 0; LSend 0; LPeekOk 0;
                                         LSetStop; LCloseListeners; LAcceptFail 0; LCloseDone; LCloseIdle; LReadServing; LReadOpen;
                                         LStore0 0; LLoadStop 0; LLookup 0; LReadReq 0] with
    | Some s => map srvClosed (conns s) = [false] /\ n_handlers s = 1
@@ -185,11 +185,11 @@ Example C15_ex_fresh_conn_first_request_is_not_served :
    end).
 Proof. exact fresh_conn_first_request_is_not_served. Qed.
 
-Example C15_ex_no_listener : run (mkCfg false false) init [LSetStop] = Some (set_sd init SReturnedNil).
+Example C15_ex_no_listener : run (mkCfg false false false) init [LSetStop] = Some (set_sd init SReturnedNil).
 Proof. reflexivity. Qed.
 
 Example C15_ex_ctx_expires :
-  match run (mkCfg false false) init
+  match run (mkCfg false false false) init
         [LServeStart; LAccept 0; LOpenInc 0; LSend 0; LRegIdle 0; LSetDeadline 0; LPeekOk 0; LStore0 0; LLoadStop 0; LReadReq 0;
          LSetStop; LCloseListeners; LAcceptFail 0; LCloseDone; LCloseIdle; LReadServing; LReadOpen; LCtxExpire] with
   | Some s => sd s = SReturnedErr /\ stop s = false /\ n_handlers s = 1 /\ chan_closed (dn s) 0 = true /\ tainted (dn s) = true
